@@ -103,7 +103,7 @@ m = {
  "hooks": {"guard": "verif", "enable": "none needed: dawnlint reads /repo's source; no instrumentation is compiled into dawn", "baseline_off_cmd": "cd /repo && GOFLAGS=-mod=mod go test -json -vet=off -count=1 -timeout 25m ./...", "source_commits": [], "add_only": True},
  "engines": [{"name": "dawnlint", "path": "/verif/checker", "serves_properties": sorted(claimed), "kind_free_text": "repository-specific static analyser (go/packages + go/ssa + VTA call graph, x/tools v0.29.0): lock-sets, dominance/must-facts, typestate, slicing, table agreement"}],
  "checks": checks,
- "notes": "All claims are at level 'other': structural necessary conditions decided from source on every path; see DESIGN.md. Genuine defects found are in known_findings.json: 'fixed' entries (repaired in /repo by fix: commits) suppress nothing; 'known' entries (three at present: F32, C15 R15.10, a defect of the forked Starlark library's json.encode; F34, C08 R8.13, Starlark equality identifies 3 and 3.0 and ignores dict order; F37, C04 R4.11, the cycle-path return of EvaluateTargets waits for nothing) are printed as KNOWN-FINDING lines by the check of their property, which then exits 0 unless something else is open.",
+ "notes": "All claims are at level 'other': structural necessary conditions decided from source on every path; see DESIGN.md. Genuine defects found are in known_findings.json: 'fixed' entries (repaired in /repo by fix: commits) suppress nothing; 'known' entries (four at present: F32, C15 R15.10, a defect of the forked Starlark library's json.encode; F34, C08 R8.13, Starlark equality identifies 3 and 3.0 and ignores dict order; F37, C04 R4.11, the cycle-path return of EvaluateTargets waits for nothing; F38, C07 R7.16 and C08 R8.14, insertion errors dropped by the decoder lose entries keyed by functions) are printed as KNOWN-FINDING lines by the check of their property, which then exits 0 unless something else is open.",
  "not_applicable": [{"property_id": p, "reason": na.get(p, pending.get(p, "rules designed in DESIGN.md §4 but not built yet in this commit; not claimed"))} for p in props if p not in claimed],
 }
 json.dump(m, open('/verif/MANIFEST.json', 'w'), indent=1)
